@@ -265,7 +265,8 @@ func bodyClient(reps int) error {
 				case refsn.SUBSCRIBE:
 					send(refsn.Pkt{Type: refsn.SUBACK, MsgID: p.MsgID, QoS: p.QoS})
 				case refsn.PUBLISH:
-					if p.QoS == 1 {
+					// the first copy of every second message gets no answer: the client retransmits (DUP)
+					if p.QoS == 1 && (p.DUP || p.MsgID%2 == 0) {
 						send(refsn.Pkt{Type: refsn.PUBACK, TopicID: p.TopicID, MsgID: p.MsgID})
 					}
 				case refsn.PINGREQ:
